@@ -466,6 +466,67 @@ pub fn run(tier: &str) -> i32 {
             }
         }
     }
+    // ---- password rotation: after a reload only the NEW secret is a valid credential
+    for (with_server_password, trigger) in [(false, "reload"), (true, "reload"), (true, "sighup"), (false, "sighup")] {
+        let mut cell = Cell::new();
+        let m = cell.add_mock("db.s0.primary.0");
+        let mk = |cell: &Cell, pw: &str| -> Cfg {
+            let mut cfg = Cfg::new();
+            let mut p = PoolCfg::single("db", "u1", pw, 2, vec![cell.server(m, "primary")]);
+            if with_server_password {
+                p.users[0].extra.push("server_username = \"u1\"".into());
+                p.users[0].extra.push("server_password = \"backend-secret\"".into());
+            }
+            cfg.pools.push(p);
+            cfg
+        };
+        let old = mk(&cell, "old-secret");
+        if let Err(e) = cell.start_pgcat(&old, &StartOpts::default()) {
+            rep.inconclusive(&format!("rotation leg start: {:?}", e));
+            continue;
+        }
+        let addr = cell.addr();
+        let port = cell.pg().port;
+        let att = |pw: &str| Attempt { class: "rotation".into(), good: true, user: "u1".into(), db: "db".into(), resp: "correct".into(), password: pw.into(), pipeline_after_startup: false, pipeline_after_response: false, tls: false };
+        let before = attempt(&addr, &att("old-secret"), &None, 950_000).map(|o| o.auth_ok).unwrap_or(false);
+        if !before {
+            rep.inconclusive("rotation leg: the original password was not admitted");
+            continue;
+        }
+        let new_toml = mk(&cell, "new-secret").to_toml(port);
+        cell.pg().rewrite_config(&new_toml);
+        let ev0 = cell.pg().events().iter().filter(|e| e.1 == "reload.end").count();
+        if trigger == "reload" {
+            if let Ok(mut a) = cell.pg().admin() {
+                let _ = a.query("RELOAD", 10_000);
+            }
+        } else {
+            cell.pg().signal(libc::SIGHUP);
+        }
+        let deadline = crate::util::now_ns() + 5_000_000_000;
+        while cell.pg().events().iter().filter(|e| e.1 == "reload.end").count() <= ev0 && crate::util::now_ns() < deadline {
+            sleep_ms(5);
+        }
+        sleep_ms(20);
+        rep.eval(2);
+        rep.count("password_rotations_checked", 1);
+        let old_ok = attempt(&addr, &att("old-secret"), &None, 950_001).map(|o| o.auth_ok).unwrap_or(false);
+        let new_ok = attempt(&addr, &att("new-secret"), &None, 950_002).map(|o| o.auth_ok).unwrap_or(false);
+        if old_ok {
+            rep.violation(
+                &format!("C09|revoked_password_still_admitted_after_reload|server_password={}|trigger={}", with_server_password, trigger),
+                &format!("the user's password was changed in the config and the config reloaded ({}); the OLD password still got AuthenticationOk (new password admitted: {}; user has server_password: {})", trigger, new_ok, with_server_password),
+                json!({"with_server_password": with_server_password, "trigger": trigger}),
+            );
+        }
+        if !new_ok {
+            rep.violation(
+                &format!("C09|new_password_refused_after_reload|server_password={}|trigger={}", with_server_password, trigger),
+                &format!("after the reload ({}) the configured (new) password is refused", trigger),
+                json!({"with_server_password": with_server_password, "trigger": trigger}),
+            );
+        }
+    }
     let ns = salts.lock().unwrap().len() as u64;
     rep.count("distinct_salts", ns);
     if rep.get("salts_seen") > 50 && ns < rep.get("salts_seen") / 2 {
